@@ -5,7 +5,7 @@ CHECKS = {
         category="model_checking",
         text="TLC explores the complete state graph of specs/fn/WeightCounter.tla (all weight vectors of 1-4 validators over weights 1-4, and of 1-3 "
              "validators over boundary weights whose sums reach 2^31-1) and every transition (Count, CountByIdx, HasQuorum, Sum) is replayed on the real "
-             "pos.WeightCounter; the real Validators.Quorum() is run for EVERY total 1..2^31-1 (verif hook) and the run-length record of its values is "
+             "pos.WeightCounter of the built set and of the sets derived from it (Copy(), Builder().Build(), RLP round trip); the real Validators.Quorum() is run for EVERY total 1..2^31-1 (verif hook) and the run-length record of its values is "
              "validated by TLC against floor(2t/3)+1 (QuorumSweep.tla); 10^5-10^6 TLC-evaluated Quorum values and ~4 700 constructions near the weight "
              "limit (2^31-1 accepted, 2^31 and wrap-arounds refused) are compared exactly. Apalache proves on the specification, for all totals "
              "1..2^31-1 and all subset weights: no uint32 overflow, whole set reaches the quorum, <= 2/3 does not, two quorums share > 1/3 "
@@ -23,7 +23,8 @@ CHECKS = {
              "model-checks that the constructive canonical order is the declarative one (descending weight, ties by ascending id) and replays every transition "
              "on the real builder, comparing SortedIDs/SortedWeights/Idxs/GetIdx/GetID/GetWeightByIdx/Get/Exists/TotalWeight/Len with the specification and "
              "requiring RLP decode(encode(v)) (into a fresh receiver, into a receiver that already holds an unrelated set, and into a by-value copy of the "
-             "previous set whose source must stay unchanged; re-encoded bytes equal), Copy() and Builder().Build() to show the same form. Big stakes: BigStakes.tla is model-checked at L = 3 over "
+             "previous set whose source must stay unchanged; re-encoded bytes equal), Copy() and Builder().Build() to show the same form, and the set (and its copy) to stay unchanged when builders derived from them are mutated. "
+             "Seeded sets of 13-40 validators with few distinct weights are compared with the TLC-evaluated canonical order (CanonVec.tla). Big stakes: BigStakes.tla is model-checked at L = 3 over "
              "all small stake vectors (total fits, order kept, shift minimal, zeroed stakes dropped) and its limb-level operators, proved equal to the integer "
              "level for 2-bit limbs, are evaluated by TLC with 16-bit limbs for boundary (2^31, 2^32, 2^64, 2^255, 2^256-1) and seeded random stakes; the "
              "real ValidatorsBigBuilder.Build() (L = 31) is compared exactly with those values.",
@@ -38,7 +39,9 @@ CHECKS = {
              "combination of the boundary values {0,1,2,2^31-3,2^31-2,2^31-1} for seq/epoch/frame/lamport with current epoch equal/different, creator "
              "validator or not and templated parent lists, plus ordinary field values with EVERY parent list of length 0-2 (quick) / 0-3 (thorough) over "
              "creator {self, other} x seq {-2,-1,0} x lamport {-2,-1,0} x {event, fork twin}, duplicates included (2.7*10^4 / ~6*10^5 vectors); each vector is "
-             "run through eventcheck.Checkers.Validate on real events: accepted <=> WellFormed.",
+             "run through eventcheck.Checkers.Validate on real events: accepted <=> WellFormed. EventCheckSeq.tla: every sequence of up to 3 (quick) / 4 (thorough) "
+             "calls (reader changes its epoch/validators, events validated) runs on ONE Checkers value; the verdict must follow the reader's answer at call time. "
+             "Vectors with field values up to 2^32-1 are validated by Apalache against the same WellFormed operator.",
         note="Exploration by model enumeration: exhaustive over the stated value sets only. Field values >= 2^31 are not enumerated (TLC integers are 32-bit). "
              "Non-trivial vectors (well-formed or violating exactly one clause) are counted separately; a vacuity guard requires each single clause to be the "
              "only violated one in some vector.",
@@ -52,7 +55,7 @@ CHECKS = {
              "2*10^4 (quick) to 2*10^5 (thorough) values compared EXACTLY with piecefunc.NewFunc(dots)(x), panics compared with ValidDots. At the range "
              "extremes (coordinates up to maxVal, x up to 2^64-1, coordinates just beyond the limit) the real code's results are recorded and Apalache "
              "checks that PieceFunc!Get/ValidDots yield the same. PieceSeq.tla treats the returned function as a sequential object whose result must not "
-             "depend on earlier lookups: every ordered pair of lookups on 26 lists of 3-4 dots is replayed on ONE function instance, plus random walks. "
+             "depend on earlier lookups: every ordered pair of lookups on 26 lists of 3-4 dots is replayed on ONE function instance, plus random walks; tables of up to 17 dots are queried at every dot. "
              "Extra obligations (Apalache, one pair of neighbouring dots over the whole range "
              "0..maxVal): no uint64 overflow, lo-1 <= f <= hi, |f-exact| <= |dy|/10^6+2, exact at the dots; the tightenings +1 and f >= lo are refuted.",
         note="The specification is proved symbolically for one piece over the full range, but the Go code is bound to it by vectors; a defect confined to "
@@ -67,7 +70,8 @@ CHECKS = {
              "event ids with pairs of ids; bigendian/littleendian encoders and decoders, every idx.*.Bytes/BytesTo*, MutableBaseEvent.Build/SetID and "
              "hash.Event.Epoch/Lamport are compared with every vector, bytes.Compare with the TLC-computed order. EventId.tla models dag.MutableBaseEvent as a "
              "state machine (SetEpoch, SetLamport, SetID, Build in every order): every transition is replayed and Build must yield BE4(epoch) o BE4(lamport) o tail "
-             "for the CURRENT values. Extra obligations (Apalache, all values of "
+             "for the CURRENT values. CodecSeq.tla: every ordered pair of encodes per width runs in one process while the harness overwrites and appends to every "
+             "returned slice and decodes every encoding twice from one buffer (results are values, inputs are not modified). Extra obligations (Apalache, all values of "
              "each width): decode(encode(n)) = n, n < m <=> BE(n) <_bytes BE(m), limb-wise = value-wise, 64-bit and event-id order by 32-bit halves; "
              "little-endian order preservation is refuted (non-vacuity).",
         note="Exhaustive for 16 bits; 32- and 64-bit values are bound by boundary/random vectors. The 64-bit obligations are discharged compositionally "
